@@ -53,9 +53,10 @@ def main():
         dcmd = ["cargo", "test", "-p", demo_rel.split("/")[1], "--offline", "--test", name]
     else:
         dcmd = ["cargo", "test", "--offline", "--test", name]
-    feat = re.search(r"--features[ =](\S+)", txt)
+    runline = next((l for l in txt.splitlines() if "cargo test" in l), "")
+    feat = re.search(r"--features[ =]([\w/,-]+)", runline)
     if feat:
-        dcmd += ["--features", feat.group(1).strip("`'\"")]
+        dcmd += ["--features", feat.group(1)]
     rc1, out1 = sh(dcmd, wt)
     res["demo_with_patch"] = {"cmd": " ".join(dcmd), "rc": rc1, "tail": out1.splitlines()[-8:]}
     sh(["git", "apply", "-R", src + "/patch.diff"], wt)
